@@ -2,6 +2,7 @@
 import json
 import os
 import shutil
+import tempfile
 
 from .. import alphabet as A
 from .. import canon as C
@@ -13,7 +14,16 @@ from .. import spec as S
 from .c05 import menu_args, menu_from_args
 
 PROP = "C04"
-SCRATCH = os.path.join(FW.VERIF, ".scratch")
+SCRATCH_BASE = os.path.join(FW.VERIF, ".scratch")
+SCRATCH = None  # a directory of this run only (concurrent runs of this check must not share or remove it)
+
+
+def _scratch():
+    global SCRATCH
+    if SCRATCH is None or not os.path.isdir(SCRATCH):
+        os.makedirs(SCRATCH_BASE, exist_ok=True)
+        SCRATCH = tempfile.mkdtemp(prefix="c04_", dir=SCRATCH_BASE)
+    return SCRATCH
 
 
 def has_transform(spec):
@@ -42,8 +52,7 @@ def check_member(spec, h, evs, partners, args, via_file):
                ("fromJson(str)", lambda: hg.Factory.fromJson(text))]
     if via_file:
         def by_file():
-            os.makedirs(SCRATCH, exist_ok=True)
-            path = os.path.join(SCRATCH, "c04_%d.json" % os.getpid())
+            path = os.path.join(_scratch(), "c04_%d.json" % os.getpid())
             try:
                 h.toJsonFile(path)
                 return hg.Factory.fromJsonFile(path)
@@ -74,6 +83,17 @@ def check_member(spec, h, evs, partners, args, via_file):
     if scale:
         for f in (0.5, 2, 0):
             trials.append(("r*%s vs h*%s" % (f, f), lambda f=f: (r * f, h * f)))
+    # results built from the reload must be as independent of it as results built from the original: merge into them
+    more = partners[-1]
+
+    def merged_into(x):
+        x += more
+        return x
+
+    for gi, g in enumerate(partners):
+        trials.append(("(r+g)+=m vs (h+g)+=m", lambda g=g: (merged_into(r + g), merged_into(h + g))))
+        trials.append(("(g+r)+=m vs (g+h)+=m", lambda g=g: (merged_into(g + r), merged_into(g + h))))
+    trials.append(("r.copy()+=m vs h.copy()+=m", lambda: (merged_into(r.copy()), merged_into(h.copy()))))
     trials.append(("h.toImmutable() vs r", lambda: (h.toImmutable(), r)))
     trials.append(("r.toImmutable() vs r", lambda: (r.toImmutable(), r)))
     trials.append(("fromJsonString(h.toJsonString()) vs r", lambda: (hg.Factory.fromJsonString(h.toJsonString()), r)))
@@ -100,6 +120,9 @@ def check_member(spec, h, evs, partners, args, via_file):
     d = C.diff(h.toJson(), doc, tol_keys=())
     if d:
         out.append(core.v_diff(PROP, "interchange", "original changed by algebra with its reload", d, h.toJson(), args))
+    d = C.diff(r.toJson(), doc, tol_keys=())
+    if d:
+        out.append(core.v_diff(PROP, "interchange", "reload changed by algebra on results built from it", d, r.toJson(), args))
     return out
 
 
@@ -200,7 +223,7 @@ def _tree(task):
 def named_variants():
     """Trees with named quantities of every kind (names must survive as name / values:name / bins:name / sub:name)."""
     out = []
-    for qk in ("def", "str", "named", "cached", "named_cached"):
+    for qk in ("def", "str", "named", "named_empty", "cached", "named_cached"):
         leaf = {"t": "Sum", "q": "y", "qk": qk}
         out.append(leaf)
         out.append({"t": "Bin", "p": S.BIN_CFG[0], "q": "x", "qk": qk, "v": leaf})
@@ -231,10 +254,12 @@ def trees(tier):
 
 
 def run(tier, seed):
-    shutil.rmtree(SCRATCH, ignore_errors=True)
     ts = trees(tier)
-    accs = FW.pmap(_tree, [(t, tier) for t in ts], seed)
-    shutil.rmtree(SCRATCH, ignore_errors=True)
+    mine = _scratch()
+    try:
+        accs = FW.pmap(_tree, [(t, tier) for t in ts], seed)
+    finally:
+        shutil.rmtree(mine, ignore_errors=True)
     acc = FW.Acc()
     for a in accs:
         acc.merge(a)
@@ -268,4 +293,8 @@ def replay(driver, args):
     i = args["member"]
     partner_hists = [[], [menu["events"][0]], [menu["events"][-2], menu["events"][len(menu["events"]) // 2]]]
     partners = [core.mk(spec, ph) for ph in partner_hists]
-    return check_member(spec, pool[i], refs[i].evs, partners, args, True)
+    try:
+        return check_member(spec, pool[i], refs[i].evs, partners, args, True)
+    finally:
+        if SCRATCH:
+            shutil.rmtree(SCRATCH, ignore_errors=True)
